@@ -89,6 +89,43 @@ SUMMARY = {
     "C19-B": ("_create_connection_impl: 'no matching local address' no longer closes the socket", "local_address set + a remote address whose family is missing from the local addresses"),
     "C20-A": ("drain(): connection-lost check before the closing-yield (same edit as C04-B)", "the connection dies during the send itself"),
     "C20-B": ("waiter done-callback: remove → popleft", "≥ 2 suspended senders, cancellation of a non-head one, then resume or connection loss"),
+    # ---- round 3 (E, F): emphasis on two cooperating sites, multi-step histories, two concurrent tasks/threads
+    "C01-E": ("StringLineSerializer.create_deserializer_buffer() caches and returns one shared bytearray", "two connections sharing one protocol object, buffer-filling path, reads interleaved mid-line"),
+    "C01-F": ("raw JSON _split_partial_document: limit compared with len(partial_document) instead of consumed", "a document still incomplete after one read, completed together with pipelined documents (accumulated > limit)"),
+    "C02-E": ("BufferedStreamDataConsumer.next(): already_written reset moved into the outcome branches, parse-error branch left out", "a bad frame that is not the first frame of its read (taken from a saved remainder)"),
+    "C02-F": ("_JSONParser._escaped(): backslash-parity scan → look at two previous bytes", "a string containing an escaped backslash followed by an escaped quote (3 backslashes before a quote)"),
+    "C03-E": ("lock_with_timeout(): lock pushed on the exit stack above the acquisition attempts", "thread 1 blocked in recv_packet(), thread 2 polls recv_packet(timeout=0) and times out on the lock"),
+    "C03-F": ("_wait_for_data() cancellation clean-up tests the attribute buffer_updated() already reset", "timeout/cancel delivered after the read event, before the waiting task wakes (same iteration)"),
+    "C04-E": ("WriteFlowControl.resume_writing(): early return when nobody waits, before clearing the paused flag", "send suspended → abandoned by timeout → peer drains → next send never returns"),
+    "C04-F": ("lock_with_timeout(): blocking-acquire path no longer pushes the lock → never released", "a second thread's send_packet(timeout=finite) while another thread is inside send_packet, then any later send"),
+    "C05-E": ("asyncio datagram adapter recv(): unshielded coro_yield after recvfrom() dequeued the datagram", "a queued datagram and a cancellation (timeout 0, iter_received_packets default, task.cancel) landing on that yield"),
+    "C05-F": ("PickleSerializer.deserialize: except Exception → a tuple of documented exceptions", "well-formed opcodes with ill-typed operands (TypeError, OverflowError)"),
+    "C07-E": ("raw JSON plain-value loop scans only the new bytes; not-complete check uses len(chunk)", "a never-terminated number arriving in reads each ≤ limit"),
+    "C07-F": ("raw JSON: quote-free chunk inside a string appended without the per-byte loop (skips the limit check)", "a never-closed string fed in quote-free reads"),
+    "C08-E": ("_IncomingDataReader: the 256 KiB staging buffer comes from a cached module helper (shared by all transports)", "two TLS connections parked in a read, cipher-text for both in the same iteration"),
+    "C08-F": ("send_all_from_iterable: encrypt-and-flush per chunk", "two concurrent multi-chunk writers, the first suspended by back-pressure"),
+    "C09-E": ("aclose() skips the closing handshake once the peer's close_notify was read", "peer closes first, we read the clean EOF, answer, then aclose()"),
+    "C09-F": ("AsyncTLSListener.serve() no longer forwards standard_compatible to wrap()", "listener configured with standard_compatible=False + a peer that ends without close_notify"),
+    "C10-E": ("AsyncTLSStreamTransport.recv_into() drops wait_for_flush=False", "writer holding the send lock (peer not reading) + second writer queued + recv_into under a timeout + data arriving"),
+    "C10-F": ("_save_external_buffer_data() no longer re-evaluates the read pause", "rescued chunk fills the 256 KiB internal buffer exactly: caller buffer ≥ 256 KiB, ≥ 256 KiB queued, cancel in the read-event iteration"),
+    "C11-E": ("_retry: an idle retry-interval wake-up charges the nominal interval instead of the measured time", "many idle wake-ups each lasting longer than retry_interval (selector overshoot)"),
+    "C11-F": ("AsyncClientRecvIterator.__anext__: budget only consumed on failure", "≥ 2 anext() calls each waiting < T, together > T"),
+    "C12-E": ("TLS __flush_write_bio(): records read out of the write BIO before taking the send lock", "sender A suspended mid-flush, sender B queued then cancelled, later sender C"),
+    "C12-F": ("FairLock._wake_up_first wakes the first waiter whose event is not set", "owner + ≥ 3 waiters, non-head waiter cancelled in the iteration of the release, new owner suspended mid-packet (library FairLock only)"),
+    "C13-E": ("CancelScope.reschedule(): re-arm only when a timer already existed", "scope entered without deadline, finite deadline set afterwards"),
+    "C13-F": ("ignore_cancellation: re-delivery of the muted cancellation moved to coroutine completion, per-step reset kept", "one-shot task.cancel() landing in a non-final step of a multi-step shielded coroutine"),
+    "C14-E": ("TLS aclose(): closed-event set after the wrapped aclose() instead of in the exit stack", "first close times out / is cancelled, then a second aclose()"),
+    "C14-F": ("server connection task: graceful transport.aclose() when the handler ends normally", "send cancelled by a handler timeout against a non-reading peer (unsent bytes buffered), handler then ends"),
+    "C15-E": ("_ConnectedClientAPI.aclose(): closing flag not set on the cancelled-while-waiting-for-the-lock path", "background sender holding the send lock (peer not reading) + handler's aclose() cancelled + generator ends"),
+    "C16-E": ("datagram server task-done callback: mark_done() below the queue-empty early exit", "handler timeout expires, generator ends with an empty queue, the TimeoutError (traceback → client data) stays referenced"),
+    "C17-E": ("datagram server: one context copy per client instead of per task", "eager task factory + handler failing twice in a row before any await with datagrams queued"),
+    "C17-F": ("serve().handler start condition: state is not TASK_RUNNING", "a datagram of the same client handled in the iteration between the old task's end and the respawned task's first step"),
+    "C18-E": ("serve_forever() 'already running' test reads the run scope instead of the shutdown event", "second serve_forever() during a slow tear-down of the first"),
+    "C18-F": ("standalone server_close(): lock scope narrowed", "another thread's serve_forever() between the two steps of server_close()"),
+    "C19-E": ("staggered race: errors.clear() at the winner + `if errors: raise`", "an attempt failing after another has won, both delivered in the same loop pass"),
+    "C19-F": ("local bind loop: for-else flattened → a successfully bound socket is closed when an earlier local address failed", "local_address resolving to ≥ 2 addresses of one family, an earlier one unbindable"),
+    "C20-E": ("WriteFlowControl.drain(): also waits when other waiters are queued", "≥ 2 tasks suspended at once, peer reads, first woken task sends again at once"),
+    "C20-F": ("WriteFlowControl.resume_writing(): early return when nobody waits (as C04-E)", "suspended sender cancelled → peer reads → next send"),
 }
 
 
